@@ -286,7 +286,7 @@ func genNoti(t *rapid.T, thr int64, small bool) *Noti {
 		n.Bulk = &Bulk{
 			At:    genElems(t, 0, 1, false, small),
 			Start: rapid.SampledFrom([]int{0, 0, 10, 30}).Draw(t, "bulk-start"),
-			N:     rapid.SampledFrom([]int{3, 20, 33, 40, 66, 70, 130}).Draw(t, "bulk-n"),
+			N:     rapid.SampledFrom([]int{3, 20, 33, 40, 66, 70, 130, 3, 20, 33, 40, 66, 70, 130, 260, 520}).Draw(t, "bulk-n"),
 			Leaf:  rapid.SampledFrom([]string{"", "", "a"}).Draw(t, "bulk-leaf"),
 			V:     int64(rapid.IntRange(0, 1).Draw(t, "bulk-v")),
 		}
@@ -335,9 +335,50 @@ func genStep(pr profile, targets int, thr int64) func(t *rapid.T) Step {
 	}
 }
 
+// genFanout is the structured "big fan-out" shape (one case in about two hundred): one notification writes 300-4100
+// sibling leaves, a later one rewrites a few of them, then a glob delete whose timestamp lies between the two
+// removes more than a thousand leaves at once and leaves the newer ones; a few ordinary steps around it.
+func genFanout(t *rapid.T, pr profile, targets int) []Step {
+	tg := rapid.IntRange(0, targets-1).Draw(t, "fan-target")
+	n := rapid.SampledFrom([]int{300, 700, 1030, 1030, 1500, 2050, 2050, 4100}).Draw(t, "fan-n")
+	leaf := rapid.SampledFrom([]string{"", "x"}).Draw(t, "fan-leaf")
+	at := []gn.Elem{{Name: "a"}}
+	steps := []Step{{Kind: "noti", T: tg, Tick: 5, N: &Noti{TS: TS{Mode: "now"}, Bulk: &Bulk{At: at, N: n, Leaf: leaf, V: 0}}}}
+	if rapid.IntRange(0, 4).Draw(t, "fan-survivors") > 0 {
+		steps = append(steps, Step{Kind: "noti", T: tg, Tick: 5, N: &Noti{TS: TS{Mode: "now"},
+			Bulk: &Bulk{At: at, Start: rapid.SampledFrom([]int{0, 0, 7, 500}).Draw(t, "fan-s-start"), N: rapid.SampledFrom([]int{1, 3, 20, 40}).Draw(t, "fan-s-n"), Leaf: leaf, V: 1}}})
+	}
+	step := rapid.Custom(genStep(pr, targets, 0))
+	for i, k := 0, rapid.IntRange(0, 2).Draw(t, "fan-mid"); i < k; i++ {
+		steps = append(steps, step.Draw(t, "fan-mid-step"))
+	}
+	del := [][]gn.Elem{{{Name: "a"}, {Name: "*"}}}
+	switch rapid.IntRange(0, 3).Draw(t, "fan-del") {
+	case 0:
+		del = [][]gn.Elem{{{Name: "*"}}}
+	case 1:
+		if leaf != "" {
+			del = [][]gn.Elem{{{Name: "a"}, {Name: "*"}, {Name: leaf}}}
+		}
+	case 2:
+		del = [][]gn.Elem{{{Name: "a"}}}
+	}
+	steps = append(steps, Step{Kind: "noti", T: tg, Tick: 1, N: &Noti{TS: TS{Mode: "leaf", D: rapid.SampledFrom([]int64{-1, 1, 0, 7}).Draw(t, "fan-del-ts")}, Deletes: del}})
+	for i, k := 0, rapid.IntRange(0, 3).Draw(t, "fan-tail"); i < k; i++ {
+		steps = append(steps, step.Draw(t, "fan-tail-step"))
+	}
+	return steps
+}
+
 func genScenario(prop string) func(t *rapid.T) *Scenario {
 	pr := profiles[prop]
 	return func(t *rapid.T) *Scenario {
+		if (prop == "C02" || prop == "C03") && rapid.IntRange(0, 199).Draw(t, "fan-out") == 123 {
+			useOddNames, useLegacyVals = false, false
+			sc := &Scenario{Targets: rapid.IntRange(pr.minTargets, pr.maxTargets).Draw(t, "targets"), EventDriven: rapid.Bool().Draw(t, "eventdriven")}
+			sc.Steps = genFanout(t, pr, sc.Targets)
+			return sc
+		}
 		useOddNames = rapid.IntRange(0, 4).Draw(t, "odd-names") == 0
 		useLegacyVals = rapid.IntRange(0, 7).Draw(t, "legacy-values") == 3
 		sc := &Scenario{Targets: rapid.IntRange(pr.minTargets, pr.maxTargets).Draw(t, "targets")}
